@@ -23,6 +23,18 @@ CHECKS = [
         "text": "For each harness (2-3 real threads performing the first deserialize / serialize / schema generation on fresh recursive, mutually recursive, generic, shared-member, converted and plain types) every schedule with <=1 preemption (quick) / <=2 preemptions on the shared-state core plus bytecode-level points on the recursion analysis (thorough) is executed on the real code; each thread's result and follow-up observations must equal the sequential baseline; failing schedules are replayed twice before being reported; replayed prefixes are validated entry by entry.",
         "note": "Assumes CPython 3.12 GIL semantics (switches only between bytecodes, C-level dict/lru_cache operations atomic). Scheduling points only inside apischema's shared-state modules. Bounds: 2 threads (3 in one harness), <=2 preemptions. Randomised preemption (sampling) is not used.",
     },
+    {
+        "id": "C09", "engine": "E2", "design_ref": "DESIGN.md §3, §5 C09",
+        "technique": "explicit-state exploration of all configuration-operation histories up to a depth over a finite alphabet, each replayed on a fresh world of the real library, with a cold-start differential oracle",
+        "text": "All histories of length <=2 (thorough: plus same-family triples and observation/operation interleavings) over 41 configuration operations (every settings class, every registry: add / replace / remove) are replayed on fresh classes with a full observation sweep (60 deserialize / serialize / schema observations on a pool of types sensitive to each registry) after every step; the final sweep must equal the sweep of a cold world (fresh classes, same configuration, never observed), also after cache.reset(), and of a fresh interpreter; every ordered pair of observations is checked for order independence on a fresh world.",
+        "note": "Trusted: nothing beyond the real code (differential oracle). Bounds: depth 2 (3 for same-family triples), one pool of types. Known finding: Union[U1,U2] / Union[U2,U1] share a cache entry.",
+    },
+    {
+        "id": "C15", "engine": "E2", "design_ref": "DESIGN.md §3, §5 C15",
+        "technique": "explicit-state breadth-first search to a fixpoint over operation histories on a real object, canonical state = (class, field values, tracked set), invariant checked in every state against a set model",
+        "text": "For 11 with_fields_set classes (defaults, default_factory, default_as_set, init=False, InitVar, __post_init__ assignment, decorated/undecorated inheritance, aliases) every initial state (constructor with every argument subset, positional and keyword; deserialize with every key subset) and every sequence of set / unset / overwrite / assign / replace / dataclasses.replace operations is explored breadth-first on real objects until no new canonical state appears; fields_set, is_set, serialize() and serialize(exclude_unset=False) are compared with a set model in every state.",
+        "note": "Values from a 2-element domain per field; the canonical state determines all futures so merging is sound; depth cap reported if hit.",
+    },
 ]
 _PENDING = "check not built yet in this round (planned, see DESIGN.md §5); not claimed until it runs green"
-NOT_APPLICABLE = [{"property_id": f"C{i:02d}", "reason": _PENDING} for i in range(4, 20)]
+NOT_APPLICABLE = [{"property_id": f"C{i:02d}", "reason": _PENDING} for i in range(4, 20) if i not in (9, 15)]
